@@ -3,5 +3,6 @@ package checks
 
 import (
 	_ "verif/harness/checks/c01"
+	_ "verif/harness/checks/c03"
 	_ "verif/harness/checks/c10"
 )
